@@ -64,52 +64,53 @@ type Obl struct {
 
 // VC generates the verification conditions of one function.
 type VC struct {
-	eng      *Engine
-	root     *ssa.Function
-	fi       *FuncInfo
-	lines    []string
-	decls    []string // global declarations (initial heap, uninterpreted functions)
-	n        int
-	obls     []*Obl
-	st       *State
-	heapSort map[string]string
-	declared map[string]bool
-	strLits  map[string]string
-	pure     int // >0: evaluating a specification expression (no obligations, no effects)
-	inline   int // >0: inside a binder: do not introduce names
-	depth    int
-	stack    []*ssa.Function
-	entry    *State
-	entryAtLock bool
-	entryAlloc string
-	rootMods []Loc
-	rootModsAll bool // function may modify anything (no frame checking): only for `noframe`
-	assumptions []string
-	oblNames map[string]int
-	inputs   []inputVar // entry constants, for replay
-	uf       map[string]bool
-	curFrame *Frame
-	lastFrame *Frame
-	meta     map[string]SV
-	vcells   map[string][]string
-	opaque   map[string]*opaqueDef
-	rec      *heapRec
-	recOwner *opaqueDef
-	quants   map[string]*quantInfo
-	revealed map[string]bool
-	hidden   map[string]bool
-	grounding map[string]bool
-	binder   int
+	eng           *Engine
+	root          *ssa.Function
+	fi            *FuncInfo
+	lines         []string
+	decls         []string // global declarations (initial heap, uninterpreted functions)
+	n             int
+	obls          []*Obl
+	st            *State
+	heapSort      map[string]string
+	declared      map[string]bool
+	strLits       map[string]string
+	pure          int // >0: evaluating a specification expression (no obligations, no effects)
+	inline        int // >0: inside a binder: do not introduce names
+	depth         int
+	stack         []*ssa.Function
+	entry         *State
+	entryAtLock   bool
+	entryAlloc    string
+	rootMods      []Loc
+	rootModsAll   bool // function may modify anything (no frame checking): only for `noframe`
+	assumptions   []string
+	oblNames      map[string]int
+	inputs        []inputVar // entry constants, for replay
+	uf            map[string]bool
+	curFrame      *Frame
+	lastFrame     *Frame
+	meta          map[string]SV
+	vcells        map[string][]string
+	opaque        map[string]*opaqueDef
+	rec           *heapRec
+	recOwner      *opaqueDef
+	quants        map[string]*quantInfo
+	revealed      map[string]bool
+	hidden        map[string]bool
+	grounding     map[string]bool
+	binder        int
 	usedContracts map[string]bool
 	usedLemmas    []*Lemma
-	proved   map[string][]string
-	heapAlloc map[string]string // heap array version -> allocation watermark when it was created
-	gkinds   []guardKind
-	gkDone   bool
-	trace    []string
-	curPos   string
-	boolDefs map[string]string
-	chET     types.Type
+	proved        map[string][]string
+	sliceProvs    map[string]sliceProv
+	heapAlloc     map[string]string // heap array version -> allocation watermark when it was created
+	gkinds        []guardKind
+	gkDone        bool
+	trace         []string
+	curPos        string
+	boolDefs      map[string]string
+	chET          types.Type
 }
 
 type inputVar struct {
@@ -119,12 +120,14 @@ type inputVar struct {
 }
 
 type Loc struct {
-	Space  byte // 'O', 'E', 'M'
-	TK     string
-	Lo, Hi int // leaf range; Hi==0 means all
-	Ref    string
-	Idx    string // "" = all
-	Desc   string
+	Space                       byte // 'O', 'E', 'M'
+	TK                          string
+	Lo, Hi                      int // leaf range; Hi==0 means all
+	Ref                         string
+	Idx                         string // "" = all
+	Desc                        string
+	ParentOff, ParentCap, LenOK string // optional: the window lies inside the slice (ParentOff, ParentCap) whenever LenOK
+	WinLo, WinLen               string // E space, Idx == "": absolute index window [WinLo, WinLo+WinLen) (the slice's off and cap)
 }
 
 type vcError struct{ msg string }
@@ -382,10 +385,22 @@ func (vc *VC) typeFacts(t types.Type, v SV) {
 		}
 		if strings.HasSuffix(li.Path, ".len") && j+1 < len(ls) && strings.HasSuffix(ls[j+1].Path, ".cap") && li.Kind == kBV {
 			base, off, ln, cp := v.L[j-2], v.L[j-1], v.L[j], v.L[j+1]
-			vc.assume(fmt.Sprintf("(and (bvsle (_ bv0 64) %s) (bvsle %s %s) (bvsle (_ bv0 64) %s) (bvsle %s (_ bv4611686018427387904 64)) (bvsle %s (_ bv4611686018427387904 64)) (=> (= %s 0) (= %s (_ bv0 64))))",
-				ln, ln, cp, off, cp, off, base, cp))
+			vc.assume(sliceWF(base, off, ln, cp))
 		}
 	}
+}
+
+// inWindow: lo <= p < lo+n, phrased on the difference so that the solver's
+// arithmetic normalisation cancels the common slice offset.
+func inWindow(p, lo, n string) string {
+	d := "(bvsub " + p + " " + lo + ")"
+	return "(and (bvsle (_ bv0 64) " + d + ") (bvslt " + d + " " + n + "))"
+}
+
+// sliceWF is Go's invariant of a slice header.
+func sliceWF(base, off, ln, cp string) string {
+	return fmt.Sprintf("(and (bvsle (_ bv0 64) %s) (bvsle %s %s) (bvsle (_ bv0 64) %s) (bvsle %s (_ bv4611686018427387904 64)) (bvsle %s (_ bv4611686018427387904 64)) (bvsle (_ bv0 64) (bvadd %s %s)) (=> (= %s 0) (= %s (_ bv0 64))))",
+		ln, ln, cp, off, cp, off, off, cp, base, cp)
 }
 
 func (vc *VC) store(lv *LVal, v SV) {
@@ -438,6 +453,48 @@ func (vc *VC) isFreshRef(ref string) string {
 	return fmt.Sprintf("(> %s %s)", ref, vc.entryAlloc)
 }
 
+// sliceProv records how a slice value was cut from another one, so that frame
+// checks can conclude window inclusion from header equalities alone instead of
+// 64-bit offset arithmetic: the slice whose offset term is the key covers
+// [pOff+lo, pOff+lo+rCap) with rCap <= pCap-lo (checked at the slicing site).
+type sliceProv struct{ pOff, pCap, rCap string }
+
+func (vc *VC) provChain(off string) []sliceProv {
+	var out []sliceProv
+	for i := 0; i < 8; i++ {
+		p, ok := vc.sliceProvs[off]
+		if !ok {
+			break
+		}
+		out = append(out, p)
+		off = p.pOff
+	}
+	return out
+}
+
+func (vc *VC) locWithin(sub, sup Loc) string {
+	c := locWithin(sub, sup)
+	if c == "false" || sup.WinLo == "" || sub.WinLo == "" || sup.Idx != "" || sub.Idx != "" {
+		return c
+	}
+	// the written window [sub.WinLo, +sub.WinLen) starts at the start of a slice
+	// derived from (an ancestor equal to) the covering slice
+	alts := []string{c}
+	if sub.ParentOff != "" {
+		alts = append(alts, and(eq(sub.Ref, sup.Ref), eq(sub.ParentOff, sup.WinLo), eq(sub.ParentCap, sup.WinLen), sub.LenOK))
+		for _, p := range vc.provChain(sub.ParentOff) {
+			alts = append(alts, and(eq(sub.Ref, sup.Ref), eq(p.pOff, sup.WinLo), eq(p.pCap, sup.WinLen), sub.LenOK))
+		}
+	}
+	chain := vc.provChain(sub.WinLo)
+	for _, p := range chain {
+		// the length bound is always the innermost slice's own capacity
+		alts = append(alts, and(eq(sub.Ref, sup.Ref), eq(p.pOff, sup.WinLo), eq(p.pCap, sup.WinLen),
+			"(bvsle (_ bv0 64) "+sub.WinLen+")", "(bvsle "+sub.WinLen+" "+chain[0].rCap+")"))
+	}
+	return or(alts...)
+}
+
 func locWithin(sub, sup Loc) string {
 	if sub.Space != sup.Space || sub.TK != sup.TK {
 		return "false"
@@ -456,6 +513,17 @@ func locWithin(sub, sup Loc) string {
 			return "false"
 		}
 		c = and(c, eq(sub.Idx, sup.Idx))
+	} else if sup.WinLo != "" {
+		// the covering item is a slice window
+		switch {
+		case sub.Idx != "":
+			c = and(c, inWindow(sub.Idx, sup.WinLo, sup.WinLen))
+		case sub.WinLo != "":
+			d := "(bvsub " + sub.WinLo + " " + sup.WinLo + ")"
+			c = and(c, or(eq(sub.WinLen, "(_ bv0 64)"), and("(bvsle (_ bv0 64) "+d+")", "(bvsle "+d+" "+sup.WinLen+")", "(bvsle "+sub.WinLen+" (bvsub "+sup.WinLen+" "+d+"))")))
+		default:
+			return "false"
+		}
 	}
 	return c
 }
@@ -466,7 +534,7 @@ func (vc *VC) frameCheck(l Loc, what string) {
 	}
 	alts := []string{vc.isFreshRef(l.Ref)}
 	for _, m := range vc.rootMods {
-		alts = append(alts, locWithin(l, m))
+		alts = append(alts, vc.locWithin(l, m))
 	}
 	if l.Space == 'O' && strings.HasPrefix(l.TK, "global:") {
 		// writes to package-level variables must be declared too
@@ -510,7 +578,14 @@ func (vc *VC) havocLoc(l Loc) {
 			if l.Space == 'O' {
 				vc.heapSet(name, sort, sto(h, l.Ref, vc.fresh(ls, "hv")))
 			} else if l.Idx == "" {
-				vc.heapSet(name, sort, sto(h, l.Ref, vc.fresh("(Array (_ BitVec 64) "+ls+")", "hv")))
+				na := vc.fresh("(Array (_ BitVec 64) "+ls+")", "hv")
+				if l.WinLo != "" {
+					// only the slice's own window may change
+					oa := vc.def("(Array (_ BitVec 64) "+ls+")", sel(h, l.Ref))
+					vc.assume(fmt.Sprintf("(forall ((p!q (_ BitVec 64))) (! (=> (not %s) (= (select %s p!q) (select %s p!q))) :pattern ((select %s p!q))))",
+						inWindow("p!q", l.WinLo, l.WinLen), na, oa, na))
+				}
+				vc.heapSet(name, sort, sto(h, l.Ref, na))
 			} else {
 				vc.heapSet(name, sort, sto(h, l.Ref, sto(sel(h, l.Ref), l.Idx, vc.fresh(ls, "hv"))))
 			}
@@ -576,8 +651,8 @@ type mapInfo struct {
 	VLeaves []leafInfo
 }
 
-func (m *mapInfo) domName() string     { return "MD:" + m.Key }
-func (m *mapInfo) domSort() string     { return "(Array Int (Array " + m.KSort + " Bool))" }
+func (m *mapInfo) domName() string      { return "MD:" + m.Key }
+func (m *mapInfo) domSort() string      { return "(Array Int (Array " + m.KSort + " Bool))" }
 func (m *mapInfo) valName(j int) string { return fmt.Sprintf("MV:%s#%d", m.Key, j) }
 func (m *mapInfo) valSort(j int) string {
 	return "(Array Int (Array " + m.KSort + " " + m.VLeaves[j].Sort + "))"
